@@ -469,7 +469,7 @@ CONN_BODIES = [
     "connection.py:Connection:__init__", "connection.py:Connection:ok", "connection.py:Connection:eof",
     "packets.py::make_com_stmt_prepare_ok", "packets.py::parse_handle_stmt_fetch", "packets.py::parse_com_stmt_reset",
     "packets.py::parse_com_stmt_close", "packets.py::_read_cursor_flags", "packets.py::_read_param_type", "packets.py::make_auth_more_data",
-    "results.py:ResultSet:__bool__",
+    "results.py:ResultSet:__bool__", "stream.py:MysqlStream:start_tls",
 ]
 
 
